@@ -161,6 +161,20 @@ m("F05", "C10", DUS, "            elif self.force_full_budget:\n                
 m("F06", "C12", PWCF, "                w=sample_weight,\n", "                w=None,\n", occ=1, note="PWC ignores sample weights (weights of LABELED samples matter: C12 pairs keep them... )")
 m("F07", "C13,C05", PWCF, "            self.metric_dict_ = self.metric_dict_.copy()", "            self.metric_dict_ = self.metric_dict_", occ=1,
   note="PWC resolves gamma='mean' inside the caller's dict again (reverts fix)")
+CW = "skactiveml/classifier/_wrapper.py"
+RW = "skactiveml/regressor/_wrapper.py"
+m("V01", "C12,C13", CW, '                elif fit_function == "fit":\n                    fit_kwargs["sample_weight"] = sample_weight[is_lbld]\n',
+  '                elif fit_function == "fit":\n                    fit_kwargs["sample_weight"] = np.ones(int(np.sum(is_lbld)))\n', occ=1,
+  tests="skactiveml/classifier/tests/test_wrapper.py",
+  note="SklearnClassifier.fit hands unit weights to the wrapped estimator (consistently wrong in every fit: only the wrapped-estimator reference sees it)")
+m("V02", "C13", RW, '        if fit_function == "fit" or not hasattr(self, "estimator_"):\n', '        if True:\n', occ=1,
+  tests="skactiveml/regressor/tests/test_wrapper.py", note="SklearnRegressor.partial_fit restarts from an unfitted copy (reverts fix)")
+m("V03", "C13", CW, '            and getattr(self, "is_fitted_", False)\n', '            and False\n', occ=1,
+  tests="skactiveml/classifier/tests/test_wrapper.py", note="SklearnClassifier.partial_fit: a batch without labels switches to the fallback (reverts fix)")
+m("V04", "C12,C13", RW, '            estimator_params["sample_weight"] = sample_weight[is_lbld]\n', '            estimator_params["sample_weight"] = sample_weight[is_lbld] ** 2\n', occ=1,
+  tests="skactiveml/regressor/tests/test_wrapper.py", note="SklearnRegressor squares the weights of the labeled samples")
+
+
 def load_extra():
     p = os.path.join(os.path.dirname(__file__), "mutants_extra.json")
     if os.path.exists(p):
